@@ -105,6 +105,91 @@ def alias(text, name):
     return int(m.group(1))
 
 
+# ----------------------------------------------------------------------------- fit_impl.hpp: splinespec_max_deriv, N_coef, N_eq
+class CondParser:
+    """integer expressions with `?:`, `>=`, `>`, `+ - *`, `.size()` over the names in `names` (-> Lean Int expression)"""
+    def __init__(self, src, names):
+        src = re.sub(r'static_cast<Eigen::Index>', '', src)
+        self.t = re.findall(r'[A-Za-z_][\w:.]*(?:\(\))?|\d+|>=|[-+*()?:>]', src)
+        if ''.join(self.t) != re.sub(r'\s+', '', src):
+            raise Untranslatable('expression outside the subset: ' + ' '.join(src.split())[:100])
+        self.i, self.names = 0, names
+
+    def peek(self): return self.t[self.i] if self.i < len(self.t) else None
+    def eat(self, x=None):
+        tok = self.peek()
+        if tok is None or (x and tok != x): raise Untranslatable(f'expected {x}, found {tok}')
+        self.i += 1; return tok
+
+    def expr(self):
+        c = self.cmp()
+        if self.peek() == '?':
+            self.eat(); a = self.expr(); self.eat(':'); b = self.expr()
+            return f'(if {c} then {a} else {b})'
+        return c
+
+    def cmp(self):
+        a = self.add()
+        if self.peek() in ('>=', '>'):
+            op = self.eat(); b = self.add()
+            return f'{b} ≤ {a}' if op == '>=' else f'{b} < {a}'
+        return a
+
+    def add(self):
+        a = self.mul()
+        while self.peek() in ('+', '-'):
+            op = self.eat(); a = f'{a} {op} {self.mul()}'
+        return a
+
+    def mul(self):
+        a = self.atom()
+        while self.peek() == '*':
+            self.eat(); a = f'{a} * {self.atom()}'
+        return a
+
+    def atom(self):
+        tok = self.eat()
+        if tok == '(':
+            e = self.expr(); self.eat(')'); return f'({e})'
+        if re.fullmatch(r'\d+', tok): return tok
+        if tok in self.names: return self.names[tok]
+        raise Untranslatable(f'unknown name {tok!r}')
+
+
+def translate_fit_impl(repo):
+    text = strip_comments(open(os.path.join(repo, 'include', 'smooth', 'spline', 'detail', 'fit_impl.hpp')).read())
+    out = []
+    # splinespec_max_deriv: pinned statement shape, translated to folds
+    try:
+        m = re.search(r'constexpr int splinespec_max_deriv\(\)', text)
+        if not m: raise Untranslatable('function not found')
+        k, e = block_after(text, m.end())
+        body = ' '.join(text[k + 1:e].split())
+        mm = re.fullmatch(r'int ret = std::max<int>\(0, SS::InnCnt\); '
+                          r'for \(const auto & x : SS::(\w+)\) \{ ret = std::max\(ret, x\); \} '
+                          r'for \(const auto & x : SS::(\w+)\) \{ ret = std::max\(ret, x\); \} return ret;', body)
+        if not mm: raise Untranslatable('body outside the subset: ' + body[:160])
+        out += ['/-- `detail::splinespec_max_deriv<SS>()`: `ret = max(0, InnCnt)`, then `ret = max(ret, x)` over both arrays in source order -/',
+                'def maxDeriv (r : RawSpec) : Int :=',
+                f'  r.{mm.group(2)}.foldl max (r.{mm.group(1)}.foldl max (max 0 r.InnCnt))', '']
+    except (Untranslatable, ValueError) as ex:
+        out += [f'def maxDeriv : String := "UNTRANSLATED: {ex}"', '']
+    names = {'K': 'r.Degree', 'N': 'N', 'SS::InnCnt': 'r.InnCnt', 'ss.LeftDeg.size()': '(r.LeftDeg.length : Int)',
+             'ss.RghtDeg.size()': '(r.RghtDeg.length : Int)'}
+    for lean, cxx in (('nCoef', 'N_coef'), ('nEq', 'N_eq')):
+        try:
+            mm = re.findall(r'const auto ' + cxx + r'\s*=\s*static_cast<Eigen::Index>\((.*?)\);', text, re.S)
+            if len(mm) != 1: raise Untranslatable(f'{len(mm)} definitions of {cxx}')
+            P = CondParser(mm[0], names)
+            ex = P.expr()
+            if P.peek() is not None: raise Untranslatable('trailing tokens')
+            out += [f'/-- `{cxx}` of `fit_spline_1d` (`N` = number of segments, as an integer ≥ 1: `N − 1` does not wrap) -/',
+                    f'def {lean} (r : RawSpec) (N : Int) : Int :=', f'  {ex}', '']
+        except (Untranslatable, ValueError) as ex:
+            out += [f'def {lean} : String := "UNTRANSLATED: {ex}"', '']
+    return out
+
+
 def main():
     repo = sys.argv[1] if len(sys.argv) > 1 else '/repo'
     path = sys.argv[2] if len(sys.argv) > 2 else os.path.join(ROOT, 'lean', 'SmoothModel', 'Gen', 'FitSpecSrc.lean')
@@ -148,6 +233,10 @@ def main():
         out.append(f'/-- default template arguments of `{name}` -/')
         out.append(f'def {name}_defaults : List (String × String) := [' + ', '.join(f'("{a}", "{b}")' for a, b in d) + ']')
         out.append('')
+    try:
+        out += translate_fit_impl(repo)
+    except OSError as e:
+        out += [f'def maxDeriv : String := "UNTRANSLATED: {e}"', '']
     out.append('end FitSpecSrc')
     new = '\n'.join(out) + '\n'
     old = open(path).read() if os.path.exists(path) else None
